@@ -36,13 +36,18 @@ def sweeps(col, pp, mons, hdepth_quick=3, hdepth_thorough=4, track_path=False):
         depth = hdepth_quick if col.tier == 'quick' else hdepth_thorough
         e1.Explorer(pp, v, e1.W_DEFAULT, e1.seed_history_P(), alphabets.history_alphabet(), mons, 'H',
                     track_path).run(depth, col)
+        # substances that share a name (twins) meet in one vessel: every amount stays with the substance it belongs to
+        e1.Explorer(pp, v, alphabets.W_TWIN, alphabets.twin_seed(), alphabets.twin_alphabet(), mons, 'T/twins',
+                    track_path).run(depth - 1, col)
 
 
 def run(col):
     pp = env.load()
     col.rule = ("BFS over operation histories on the real API (state = canonical world contents, 6 decimals); G: every "
                 "ordered pair of source/destination forms x 4 units from 3 base states; U: every unit spelling x sizes x "
-                "pairing forms; H: 45-action alphabet to depth 3 (quick) / 4 (thorough). Non-trivial = distinct "
+                "pairing forms; H: 45-action alphabet to depth 3 (quick) / 4 (thorough); T: vessels holding substances that share a "
+                "name (twins), 44 actions to depth 2 / 3, totals kept per substance identity (name, kind, parameters), never "
+                "through Substance.__eq__. Non-trivial = distinct "
                 "(operation, outcome class, operand forms, unit) observation classes")
     col.assumptions += ["valuation selected by VERIF_SEED mod 3 in the quick tier; all three in the thorough tier",
                         "a call that raises is not a transfer and is not judged here (C03/C07 judge refusals)"]
